@@ -5,7 +5,7 @@
    bound (C09), so the result is d.
    The sc/ec/ec_next/smaller_found/break bookkeeping of dtw.distance AS WRITTEN
    (PyDist.distp_model, rolling buffer, regenerated index arithmetic) is proved
-   exact in PyDistPrune.v when there is no begin relaxation; with begin-psi the
+   exact in.v when there is no begin relaxation; with begin-psi the
    bookkeeping is unsound in the code itself (finding F06, refuted below). *)
 From Coq Require Import ZArith List.
 From DV Require Import Cost Dtw DtwSpec DtwProps Bounds Prune PyDist PyDistPrune.
@@ -44,7 +44,7 @@ Qed.
    specification value if it is <= B and inf otherwise. *)
 Theorem C03_pruned_code_model_exact : forall u s1 s2 B,
   (1 <= eff_window u (length s1) (length s2))%Z -> (1 <= length s1)%nat -> (1 <= length s2)%nat ->
-  pen_ok u -> psi_1b u = 0%nat -> psi_2b u = 0%nat ->
+  pen_ok u -> (psi_1b u < length s1)%nat \/ (psi_2e u < length s2)%nat ->
   distp_model u s1 s2 B = (if too_long u s1 s2 then Inf else bounded B (dtw_value u s1 s2)).
 Proof. exact distp_model_is_bounded_model. Qed.
 
@@ -52,15 +52,15 @@ Definition ex3_u := {| u_window := Some 2%Z; u_penalty := None; u_max_step := No
                        u_psi := ((0, 1), (0, 0))%nat; u_inner := SqEuclid |}.
 Definition ex3_s1 : list point := [[0]; [0]; [5]; [0]; [1]]%Z.
 Definition ex3_s2 : list point := [[0]; [5]; [0]; [0]; [3]]%Z.
-(* the hypotheses are satisfiable, the bound bites (B = 4 < 9 = unbounded value -> inf) and does not (B = 9) *)
+(* the hypotheses are satisfiable, the bound bites (B = 3 < 4 = unbounded value -> inf) and does not (B = 4) *)
 Example C03_pruned_nonvacuous :
   dtw_value ex3_u ex3_s1 ex3_s2 = Fin 4 /\ distp_model ex3_u ex3_s1 ex3_s2 (Fin 3) = Inf /\
   distp_model ex3_u ex3_s1 ex3_s2 (Fin 4) = Fin 4.
 Proof. vm_compute. repeat split; reflexivity. Qed.
 
-(* F06: with begin relaxation the same bookkeeping loses a path that is below the bound *)
+(* begin relaxation: the input on which the bookkeeping before the repair of F06 returned inf *)
 Definition ex3_upsi := {| u_window := None; u_penalty := None; u_max_step := None; u_max_length_diff := None;
                           u_psi := ((2, 0), (0, 0))%nat; u_inner := SqEuclid |}.
-Example C03_begin_psi_refuted :
-  exists s1 s2 B, bounded B (dtw_value ex3_upsi s1 s2) <> distp_model ex3_upsi s1 s2 B.
-Proof. exists [[5]; [5]; [0]]%Z, [[0]; [0]]%Z, (Fin 1). vm_compute. discriminate. Qed.
+Example C03_begin_psi_witness :
+  distp_model ex3_upsi [[5]; [5]; [0]]%Z [[0]; [0]]%Z (Fin 1) = Fin 0.
+Proof. vm_compute. reflexivity. Qed.
